@@ -227,7 +227,14 @@ fn emit_nodes(cx: &mut Ctx, out: &mut String, nodes: &[Node], ind: usize) {
                 let arg = if fd.ptr {
                     cx.tmp += 1;
                     let t = cx.tmp;
-                    let _ = writeln!(out, "{pad}var q{t} = 1u;");
+                    match &fd.ptr_struct {
+                        Some(st) => {
+                            let _ = writeln!(out, "{pad}var q{t}: {st};");
+                        }
+                        None => {
+                            let _ = writeln!(out, "{pad}var q{t} = 1u;");
+                        }
+                    }
                     format!("&q{t}")
                 } else if fd.param {
                     cx.tmp += 1;
@@ -435,7 +442,15 @@ pub fn concretise(s: &Shader) -> String {
     for f in &s.functions {
         let mut body = String::new();
         emit_nodes(&mut cx, &mut body, &f.body, 1);
-        let p = if f.ptr { "p: ptr<function, u32>" } else if f.param { "p: u32" } else { "" };
+        let pstr;
+        let p = if f.ptr {
+            pstr = format!("p: ptr<function, {}>", f.ptr_struct.as_deref().unwrap_or("u32"));
+            pstr.as_str()
+        } else if f.param {
+            "p: u32"
+        } else {
+            ""
+        };
         if f.ret {
             let _ = write!(out, "fn {}({p}) -> u32 {{\n{body}    return 0u;\n}}\n", f.name);
         } else {
